@@ -51,6 +51,7 @@ type Batch struct {
 	MaxTs        int64
 	LogAppend    bool
 	PID          int64
+	Epoch        int16 // producer epoch; an abort marker written by the coordinator carries the data epoch + 1
 	Txn, Control bool
 	CtrlType     int // 0 abort, 1 commit, 2 unknown (control batches only)
 	Recs         []Rec
@@ -178,7 +179,7 @@ func (b *Batch) sarama() *sarama.RecordBatch {
 		FirstOffset: b.First, Version: 2, Codec: b.Codec, CompressionLevel: sarama.CompressionLevelDefault,
 		Control: b.Control, LogAppendTime: b.LogAppend,
 		LastOffsetDelta: b.LastDelta, FirstTimestamp: msTime(b.FirstTs), MaxTimestamp: msTime(b.MaxTs),
-		ProducerID: b.PID, IsTransactional: b.Txn,
+		ProducerID: b.PID, ProducerEpoch: b.Epoch, IsTransactional: b.Txn,
 	}
 	for _, r := range b.Recs {
 		rec := &sarama.Record{TimestampDelta: time.Duration(r.TsDelta) * time.Millisecond, OffsetDelta: r.Delta, Key: r.Key, Value: r.Val}
